@@ -64,6 +64,8 @@ func main() {
 	mbatch := flag.Int("mbatch", -1, "batch index within the mode")
 	mnbatch := flag.Int("mnbatch", -1, "number of batches of the mode")
 	out := flag.String("out", "", "result file")
+	reportAs := flag.String("report-as", "", "report the violations of this workload under another property id")
+	onlyKeys := flag.String("only-keys", "", "with -report-as: comma separated substrings; violations whose key contains none are dropped")
 	flag.Parse()
 
 	f, ok := registry[*prop]
@@ -96,6 +98,34 @@ func main() {
 		}
 	}
 	f(c)
+	if *reportAs != "" {
+		// a borrowed workload: keep what concerns the borrowing property, under its name
+		keep := []wk.Violation{}
+		for _, v := range c.Res.Violations {
+			for _, k := range strings.Split(*onlyKeys, ",") {
+				if k != "" && strings.Contains(v.Key, k) {
+					v.Key = *reportAs + strings.TrimPrefix(v.Key, *prop)
+					v.What = "(workload of " + *prop + ") " + v.What
+					keep = append(keep, v)
+					break
+				}
+			}
+		}
+		if d := len(c.Res.Violations) - len(keep); d > 0 {
+			c.Res.Note("violations-of-"+*prop+"-not-concerning-"+*reportAs, fmt.Sprint(d))
+		}
+		c.Res.Violations, c.Res.NViolations, c.Res.Property = keep, int64(len(keep)), *reportAs
+		c.Res.Rule = ""
+		obs := map[string]int64{}
+		for k, v := range c.Res.Observed {
+			if strings.HasPrefix(k, "max:") {
+				obs["max:"+*prop+"-workload:"+strings.TrimPrefix(k, "max:")] = v
+			} else {
+				obs[*prop+"-workload:"+k] = v
+			}
+		}
+		c.Res.Observed = obs
+	}
 	c.Res.Note("wall_s", fmt.Sprintf("%.2f", time.Since(c.start).Seconds()))
 	if *out == "" {
 		*out = "/dev/stdout"
